@@ -119,7 +119,18 @@ def _coded_dispatch(repo, eng):
                                 for t in tags):
                     continue
             return False
-        return any(isinstance(x, _ast.Name) and x.id not in fi.params for x in sides)
+        names = [x for x in sides if isinstance(x, _ast.Name) and x.id not in fi.params]
+        if not names:
+            return False
+        # a cardinality (`count = len(point_set)`; `if count == 2`) is data, not a kind code
+        from .astutil import assigned_names
+        asg = assigned_names(fi.node)
+        for x in names:
+            defs = asg.get(x.id, [])
+            if defs and all(isinstance(d, _ast.Assign) and any(isinstance(c, _ast.Call) and isinstance(c.func, _ast.Name) and c.func.id == "len"
+                                                               for c in _ast.walk(d.value)) for d in defs):
+                return False
+        return True
 
     out = []
     for fi in repo.functions(include_visualization=False):
